@@ -316,7 +316,7 @@ def prepare(h, workdir):
     gen, info = translate(h.fam, h.roots, h.stubs, h.keep_virtual, tag=re.sub(r'\W', '_', h.name), cuts=getattr(h, 'cuts', ()))
     os.makedirs(workdir, exist_ok=True)
     if getattr(h, 'pre', None): h.pre(workdir)
-    cfile = os.path.join(workdir, re.sub(r'\W', '_', h.name) + '.c')
+    cfile = os.path.join(workdir, re.sub(r'\W', '_', h.name) + '_' + sha(h.name)[:6] + '.c')      # distinct names may sanitise to the same string
     with open(cfile, 'w') as o:
         o.write('/* generated: %s */\n#include "%s"\n#include "%s"\n' % (h.name, gen, os.path.join(VERIF, 'rt', 'verif_rt.c')))
         if h.string_model: o.write('#include "%s"\n' % os.path.join(VERIF, 'rt', 'string_model.c'))
